@@ -30,6 +30,10 @@ REQUIRED_THEOREMS = ['table_is_documented', 'shunt_complete', 'grammar_parses', 
                      'intercept_is_fold', 'spans_irrelevant',
                      # from the string: the tokenizer on a formula written with single spaces
                      'tokenize_rendered', 'parse_eq_denote_rendered_partial', 'parse_eq_denote_rendered_sum_partial',
+                     # sign runs, the literal 0 and the wildcard `.` inside the grammar; quoted / Python atoms as leaves
+                     'sign_run_resolves', 'parse_eq_denote_runs_tokens_partial', 'runs_denote_as_normal_form',
+                     'parse_eq_denote_runs_partial', 'parse_eq_denote_rendered_runs_partial', 'wildcard_denotes_unused_variables',
+                     'rewriting_ignores_merged_separators', 'parse_eq_denote_respaced_partial',
                      # term algebra
                      'union_idempotent', 'union_associative', 'diff_is_set_difference', 'interaction_distributes',
                      'power_is_iterated_interaction', 'product_respects_identity',
@@ -42,8 +46,8 @@ TRUSTED = [
     "pickle / copy.deepcopy of a formula are exercised on the implementation only (oracle: the formula is unchanged); the model has no notion of them",
 ]
 ASSUMPTIONS = ["multistage `[ ~ ]` formulas are exercised by the correspondence only (experimental feature)",
-               "parse = denotation is proved from the token sequence, and from the STRING for formulas written with one space after every token whose atoms are plain names / numbers (tokenize_rendered, parse_eq_denote_rendered_partial); for other spellings (other whitespace, quoted names, Python fragments) it is proved GIVEN that the string tokenises to the token sequence of the formula (checked on every generated string by the `get_tokens` correspondence); formulas in which a part after `~` or `|` starts with a sign tokenise to a merged `~-` token and are covered from the token sequence only",
-               "the `.` wildcard, the literal `0` as a summand and runs of signs are outside the grammar of the parse = denotation theorem (covered by C01.6i / C01.2 at the token level and by the correspondence + reference evaluator)"]
+               "parse = denotation is proved from the token sequence (as written, and as the lexer delivers it: a separator and the signs after it are one token), and from the STRING for formulas written with one space after every written token — names, numbers, 0, '.', sign runs, back-quoted names, brace fragments, calls (tokenize_rendered, parse_eq_denote_rendered_partial, parse_eq_denote_rendered_runs_partial); and for every re-spacing of such a string at the gaps of the formula — after operators, brackets and finished tokens, between a word and a following operator / ')' / %in% / the end — as a relation between strings (parse_eq_denote_respaced_partial); for other spellings it is proved GIVEN that the string tokenises to the token sequence of the formula (checked on every generated string by the `get_tokens` correspondence)",
+               "a sign directly after a binary operator that is neither a sign nor a separator (`a * -b`, `a:--b`, lexed as one token `*-`) is outside the grammar of the parse = denotation theorems (covered by the character-level theorems C01.2 and by the correspondence + reference evaluator); the value of '.' is the model's (available variables minus the variables of the written left-hand side; data variables of Python fragments enter as data)"]
 RULE = (
     "grammar-directed random formulas (depth<=3; names, dotted names, backtick names with operator characters, call and brace "
     "fragments, numeric scalings, 0, 1, '.', parentheses, sign runs of length 1-5, all operators) rendered with random whitespace, "
@@ -880,11 +884,12 @@ def classify(c, o, why):
 
 LEVEL_TEXT = (
     "Proof (partial): Lean theorems about the executable model of the whole parser (tokenizer, token rewriting, sign-run collapsing, index-based shunting-yard, term algebra, _simplify, degree ordering) and of every specification form (Formula.from_spec, Formula(...), StructuredFormula, SimpleFormula, _ordering). "
-    "MAIN THEOREM (parse_eq_denote_partial / parse_eq_denote_tokens_partial / formula_eq_denote_partial): for EVERY formula of the documented grammar — Side, ~ Side or Side ~ Side, a Side being Sum | ... | Sum, the Sums arbitrary expressions over + - * / %in% : ** ^, parentheses and a leading sign, unbounded nesting and lengths — that the feature flags allow and that has no literal 0, and for EVERY parser configuration, get_terms IS the documented denotation (Spec/WilkinsonDenote.lean: + union, - difference, : pairwise products, a*b = a+b+a:b, a/b, %in%, **n; every right-hand part read from {1} with include_intercept, from nothing on the left-hand side and without it; {lhs, rhs} / {root}; tuples for | parts; check_terms), rejections included, and Formula(<str>) is that denotation simplified and stably ordered by degree. Proved from the token sequence; from the STRING, with no hypothesis about the tokenizer, for every such formula written with one space after each token whose atoms are plain names or numbers (tokenize_rendered: the tokenizer returns exactly the tokens written; parse_eq_denote_rendered_partial); for any other spelling given that the string tokenises to that sequence (source spans are proved irrelevant). "
+    "MAIN THEOREM (parse_eq_denote_partial / parse_eq_denote_tokens_partial / formula_eq_denote_partial): for EVERY formula of the documented grammar — Side, ~ Side or Side ~ Side, a Side being Sum | ... | Sum, the Sums arbitrary expressions over + - * / %in% : ** ^, parentheses and a leading sign, unbounded nesting and lengths — that the feature flags allow and that has no literal 0 (see EXTENDED GRAMMAR for 0, sign runs, '.', opaque leaves), and for EVERY parser configuration, get_terms IS the documented denotation (Spec/WilkinsonDenote.lean: + union, - difference, : pairwise products, a*b = a+b+a:b, a/b, %in%, **n; every right-hand part read from {1} with include_intercept, from nothing on the left-hand side and without it; {lhs, rhs} / {root}; tuples for | parts; check_terms), rejections included, and Formula(<str>) is that denotation simplified and stably ordered by degree. Proved from the token sequence; from the STRING, with no hypothesis about the tokenizer, for every such formula written with one space after each token whose atoms are plain names or numbers (tokenize_rendered: the tokenizer returns exactly the tokens written; parse_eq_denote_rendered_partial); for any other spelling given that the string tokenises to that sequence (source spans are proved irrelevant). "
+    "EXTENDED GRAMMAR (parse_eq_denote_runs_tokens_partial / parse_eq_denote_runs_partial / parse_eq_denote_rendered_runs_partial, reference semantics Spec/WilkinsonDenoteR.lean): the same theorem for formulas with arbitrary RUNS OF SIGNS wherever a sign may stand (read by parity: sign_run_resolves), the literal 0 as a summand (+ 0 removes, - 0 adds the intercept), the WILDCARD '.' as an atom (the available variables of the context that the written left-hand side does not use, the same at every occurrence; rejected without a context: wildcard_denotes_unused_variables) and ANY token that is not a bracket, an operator or 0 as a leaf (names, back-quoted names, numbers, strings, Python fragments, calls; the theorem does not look at the leaf's kind); without '.', that denotation is the old denotation of the normal form (runs_denote_as_normal_form). From the token sequence as written and as the lexer delivers it (a separator and the signs of the part after it are one token, which the rewriting treats like two: rewriting_ignores_merged_separators), from any spelling given its tokenisation, and from the STRING with no tokenizer hypothesis for single-space renderings that may contain sign runs, 0, '.', back-quoted names, brace fragments and calls (the tokenizer theorem uses C15's quoting lemmas), and for every re-spacing of such a string around operators, brackets, finished tokens and the end (parse_eq_denote_respaced_partial: C15's re-spacing relation plus the optional space between a finished word and a following operator character, closing parenthesis, %in% or the end). "
     "Its ingredients are theorems of their own: the live operator table equals the documented one for all 8 flag subsets (re-decided against the regenerated table on every run); the shunting-yard returns the documented tree for every expression of the arithmetic grammar and of the top level (toplevel_parses, ...), rejects what the flags disable, and never re-orders, drops or duplicates a token of an accepted list (shunt_preserves_tokens); the token-level intercept insertion (every right-hand part, no left-hand part, 0 -> - 1, and intercept_is_fold: '1 +' in front of a part IS reading the part from {1}); sign-run collapsing; evaluation = denotation on the arithmetic levels (eval_eq_denote). "
     "TERM ALGEBRA, for all operands and with order: + idempotent and associative, - is set difference on term identities, : distributes over + from the left, S**(n+1) = (S**n):S for every n, products respect term identity, a*b, %in%, ^, a/b, **2 identities, stable degree order. "
     "SPECIFICATION FORMS (forms_onesided, forms_twosided, string_eq_keywords_partial, ordering_methods): for every string parser, a string, the list of its Terms and a list of strings denoting them piecewise give the same SimpleFormula; 'lhs ~ rhs' as one string, as a dict, as lhs=/rhs= keywords and as a Structured (sides as strings or Term lists) give the same StructuredFormula; and for the documented grammar Formula('l ~ p') = Formula(lhs='l', rhs='1 + p') with no hypothesis left; none / degree / sort orderings characterised. "
-    "What is NOT proved: tokenisation of an ARBITRARILY spaced / quoted rendering (a hypothesis of the general string-level theorem), the '.' wildcard, the literal 0 and sign runs INSIDE the grammar of the main theorem, multistage formulas, and the general from_spec recursion beyond the stated forms; these are covered by the differential correspondence of the model against the real code at every stage (tokens, tree, terms, formula, every specification form) plus the independent reference evaluator of the documented semantics on generated ASTs."
+    "What is NOT proved: a closed-form 'for every spacing function' statement (spacing is covered as the closure of the single-space rendering under whitespace insertion / removal at the gaps of a formula; for other spellings tokenisation is a hypothesis of the general string-level theorems), a sign directly after a binary operator that is neither a sign nor a separator (a * -b), multistage formulas, and the general from_spec recursion beyond the stated forms; these are covered by the differential correspondence of the model against the real code at every stage (tokens, tree, terms, formula, every specification form) plus the independent reference evaluator of the documented semantics on generated ASTs."
 )
 LEVEL_NOTE = (
     'Trusted: Lean kernel + propext/Classical.choice/Quot.sound; the hand models (parser stack, Model/FromSpec.lean, Model/BaseParser.lean) validated on every run by correspondence at every stage (get_tokens, get_ast, get_terms, Formula(), every specification form) on grammar-directed, mutated, template and specification-tree inputs; CPython ast.unparse normal forms, re character classes and set iteration order enter as data; the operator table and the default parser configurations / orderings are regenerated from the live package.'
